@@ -104,6 +104,13 @@ Definition srv_lookup (p : params) (ss : store) (sid : bid) : option sess :=
     end
   else None.
 
+(* the cryptographic idealisations used as PREMISES of the theorems (never assumed globally) *)
+Definition reflects {A : Type} (eqb : A -> A -> bool) : Prop := forall a b, eqb a b = true <-> a = b.
+Definition KB_injective {K : Type} (KB : secret -> N -> N -> K) : Prop :=
+  forall m r s m' r' s', KB m r s = KB m' r' s' -> m = m' /\ r = r' /\ s = s'.
+Definition VD_injective {V : Type} (VD : bool -> secret -> N * N * bid -> V) : Prop :=
+  forall b m t b' m' t', VD b m t = VD b' m' t' -> b = b' /\ m = m' /\ t = t'.
+
 Section Model.
   Variables K V : Type.
   Variable KB : secret -> N -> N -> K.             (* key block (master secret, client random, server random) *)
